@@ -838,7 +838,9 @@ def oracle_compile(cc, table, outs):
                     exp = by_name[rl]['value']
                 else:
                     exp = ''
-            if isinstance(exp, float) and isinstance(cell, (int, float)) and not isinstance(cell, bool):
+            if isinstance(exp, float) and math.isnan(exp):
+                ok = cell == ''  # df.fillna('') shows a NaN statistic as an empty cell
+            elif isinstance(exp, float) and isinstance(cell, (int, float)) and not isinstance(cell, bool):
                 ok = same(float(cell), exp, 0.0)
             else:
                 ok = cell == exp and type(cell) is type(exp) or (isinstance(exp, int) and isinstance(cell, (int, float)) and cell == exp)
@@ -881,7 +883,7 @@ def compare_compile(res, cc, table, ans):
                 ok = mv == b
             elif 'num' in a:
                 mv = b2f(a['num'])
-                ok = isinstance(b, (int, float)) and same(mv, float(b), 1e-12)
+                ok = (b == '' and math.isnan(mv)) or (isinstance(b, (int, float)) and same(mv, float(b), 1e-12))
             else:
                 g = a['g']
                 if 'nat' in g:
@@ -889,10 +891,10 @@ def compare_compile(res, cc, table, ans):
                     ok = isinstance(b, (int, float)) and b == mv
                 elif 'num' in g:
                     mv = b2f(g['num'])
-                    ok = isinstance(b, (int, float)) and same(mv, float(b), 1e-12)
+                    ok = (b == '' and math.isnan(mv)) or (isinstance(b, (int, float)) and same(mv, float(b), 1e-12))
                 elif 'onum' in g:
                     mv = unb(g['onum'])
-                    ok = (b == '' and mv is None) or (mv is not None and isinstance(b, (int, float)) and same(mv, float(b), 1e-12))
+                    ok = (b == '' and (mv is None or math.isnan(mv))) or (mv is not None and isinstance(b, (int, float)) and same(mv, float(b), 1e-12))
                 else:
                     mv, ok = '<opaque>', True
             if not ok:
